@@ -124,6 +124,15 @@ fn parse_single_chord(
         );
     }
     let action = parse_action(&chunk[1], s)?;
+    if resolves_through_key_position(action) {
+        // The action of a chord runs at a position outside of the layers and defsrc.
+        // Written out directly, the transparent action is refused by the parser context;
+        // this also catches it inside an alias, and use-defsrc which has the same need.
+        bail_expr!(
+            &chunk[1],
+            "Transparent and use-defsrc actions are forbidden within chordsv2"
+        );
+    }
     let timeout = parse_timeout(&chunk[2], s)?;
     let release_behaviour = parse_release_behaviour(&chunk[3], s)?;
     let disabled_layers = parse_disabled_layers(&chunk[4], s)?;
@@ -135,6 +144,44 @@ fn parse_single_chord(
         release_behaviour,
     };
     Ok(s.a.sref(chord).clone())
+}
+
+/// Returns true if the action contains a transparent or use-defsrc action, which are resolved
+/// through the layer and defsrc entries at the position of the pressed key.
+fn resolves_through_key_position(action: &KanataAction) -> bool {
+    match action {
+        Action::Trans | Action::Src => true,
+        Action::HoldTap(HoldTapAction {
+            tap,
+            hold,
+            timeout_action,
+            ..
+        }) => {
+            // A plain tap-hold stores its hold action a second time as the timeout action.
+            let same_nested_hold_tap = matches!(
+                (hold, timeout_action),
+                (Action::HoldTap(h), Action::HoldTap(t)) if core::ptr::eq(*h, *t)
+            );
+            resolves_through_key_position(tap)
+                || resolves_through_key_position(hold)
+                || (!same_nested_hold_tap && resolves_through_key_position(timeout_action))
+        }
+        Action::OneShot(OneShot { action: ac, .. }) => resolves_through_key_position(ac),
+        Action::MultipleActions(actions) => actions.iter().any(resolves_through_key_position),
+        Action::TapDance(TapDance { actions, .. }) => {
+            actions.iter().any(|ac| resolves_through_key_position(ac))
+        }
+        Action::Fork(ForkConfig { left, right, .. }) => {
+            resolves_through_key_position(left) || resolves_through_key_position(right)
+        }
+        Action::Chords(ChordsGroup { chords, .. }) => chords
+            .iter()
+            .any(|(_, ac)| resolves_through_key_position(ac)),
+        Action::Switch(Switch { cases }) => cases
+            .iter()
+            .any(|case| resolves_through_key_position(case.1)),
+        _ => false,
+    }
 }
 
 fn parse_participating_keys(keys: &SExpr, s: &ParserState) -> Result<Vec<u16>> {
